@@ -50,6 +50,19 @@ CircleBoxOK(bb, c, q) == /\ Len(bb) = 4
                          /\ AbsC(bb[1] - (c[1] - c[3]) * q) <= 1 /\ AbsC(bb[2] - (c[2] - c[3]) * q) <= 1
                          /\ AbsC(bb[3] - (c[1] + c[3]) * q) <= 1 /\ AbsC(bb[4] - (c[2] + c[3]) * q) <= 1
 
+\* two large circles of nearly equal radii, far apart: two outer tangents, each touching both circles tangentially on the same
+\* side (relative residuals in units of 2^-30, bound 2^-24), left one first
+JCCNear(r) ==
+    LET o == r.out IN
+    /\ Clause(i, "C11.outer.panic", Sub(o))
+    /\ Sub(o) =>
+        /\ Clause(i, "C11.outer.some", o.some /\ Len(o.segs) = 2)
+        /\ (o.some /\ Len(o.segs) = 2) =>
+            /\ Clause(i, "C11.outer.finite", o.finite)
+            /\ Clause(i, "C11.outer.near_equal_radii_touch_both", \A k \in 1..2 : LET g == o.segs[k] IN
+                   AbsC(g.on0) <= 64 /\ AbsC(g.on1) <= 64 /\ AbsC(g.perp0) <= 64 /\ AbsC(g.perp1) <= 64 /\ AbsC(g.same) <= 64)
+            /\ Clause(i, "C11.outer.order", o.segs[1].side > 0 /\ o.segs[2].side < 0)
+
 JCC(r) ==
     LET o == r.out IN
     /\ Note("cc." \o PairClass(r.c0, r.c1))
@@ -186,6 +199,7 @@ Judge(r) ==
     /\ Sane(i, r)
     /\ Ran(r) =>
         CASE r.op = "cc"    -> JCC(r)
+          [] r.op = "ccnear" -> JCCNear(r)
           [] r.op = "tan"   -> JTan(r)
           [] r.op = "seg"   -> JSeg(r)
           [] r.op = "curve" -> JCurve(r)
